@@ -9,6 +9,7 @@ import (
 	"time"
 
 	"github.com/anishathalye/porcupine"
+	"github.com/jsightapi/jsight-schema-core/rules/enum"
 	"github.com/jsightapi/jsight-schema-core/simrt"
 )
 
@@ -271,6 +272,16 @@ func Execute(w *World, tape *simrt.Tape, gold []*Golden, onFatal func(int, strin
 			x.insts[i].donor = x.insts[d]
 		}
 	}
+	// rule objects shared between tasks are created before the tasks start
+	for i := range w.Objects {
+		if d := w.Objects[i].ShareWith - 1; w.Objects[i].RulesOnly && d >= 0 && d < i && x.insts[d].ruleObjs == nil {
+			dp := &w.Objects[d]
+			x.insts[d].ruleObjs = make([]*enum.Enum, len(dp.Rules))
+			for k, r := range dp.Rules {
+				x.insts[d].ruleObjs[k] = enum.New(r.Name, r.Text)
+			}
+		}
+	}
 	// Schemas that register the same type objects are judged only when every one of
 	// them is accepted in a fresh process: compilation completes the types in place
 	// (by design), and a compilation that *fails* half-way leaves them half-completed
@@ -278,7 +289,7 @@ func Execute(w *World, tape *simrt.Tape, gold []*Golden, onFatal func(int, strin
 	// Such a group is executed, as unrelated work for the other objects, but not judged.
 	for i := range w.Objects {
 		d := w.Objects[i].ShareWith - 1
-		if d < 0 || d >= i {
+		if d < 0 || d >= i || w.Objects[i].RulesOnly {
 			continue
 		}
 		ok := true
